@@ -836,4 +836,247 @@ theorem spineR_append_ne_nil (a : List Node) : ∀ ns : List Node, ns ≠ [] →
   have hd := List.dropLast_concat_getLast hne
   rw [← hd, ← List.append_assoc, spineR_concat, spineR_concat]
 
+/-! ### `Slice.insertAt` never dies and keeps the spines (for `insert ≤ size`) -/
+
+theorem flatInsert_no_internal (S : Schema) (ins : List Node) (parent : Option TypeId) (level : List Node)
+    (d idx : Nat) (hd : d ≤ fsize level) : flatInsert S ins parent level d idx ≠ .error .internal := by
+  have go : (match fcut level 0 d, fcut level d (fsize level) with
+      | .ok l, .ok r => (.ok (some (fappend (fappend l ins) r)) : Res (Option (List Node)))
+      | .error e, _ => .error e
+      | _, .error e => .error e) ≠ .error .internal := by
+    intro hc
+    split at hc
+    · simp at hc
+    · rename_i e he
+      simp at hc; subst hc
+      exact fcut_no_internal level 0 d hd he
+    · rename_i e he _
+      simp at hc; subst hc
+      exact fcut_no_internal level d (fsize level) (Nat.le_refl _) he
+  unfold flatInsert
+  simp only
+  split
+  · exact go
+  · split
+    · simp
+    · exact go
+    · simp
+
+theorem insertInto_no_internal (S : Schema) (ins : List Node) :
+    ∀ (rest : List Node) (parent : Option TypeId) (level : List Node) (d0 idx d oa ob : Nat),
+      d0 + fsize rest = fsize level + d →
+      insertInto S ins parent level d0 idx rest d oa ob ≠ .error .internal
+  | [], parent, level, d0, idx, d, oa, ob, hinv, h => by
+    unfold insertInto at h
+    split at h
+    · exact flatInsert_no_internal S ins parent level d0 idx (by simp at hinv; omega) h
+    · simp at h
+  | n :: ns, parent, level, d0, idx, d, oa, ob, hinv, h => by
+    simp only [fsize_cons] at hinv
+    unfold insertInto at h
+    split at h
+    · exact flatInsert_no_internal S ins parent level d0 idx (by omega) h
+    · rename_i hd
+      split at h
+      · rename_i hle
+        exact insertInto_no_internal S ins ns parent level d0 (idx + 1) (d - n.size) oa ob (by omega) h
+      · rename_i hlt
+        split at h
+        · rename_i ty a m kids
+          simp only at h
+          split at h
+          · simp at h
+          · simp at h
+          · rename_i e he
+            simp at h; subst h
+            exact insertInto_no_internal S ins kids _ kids (d - 1) 0 (d - 1) _ _ (by omega) he
+        · exact flatInsert_no_internal S ins parent level d0 idx (by omega) h
+
+theorem flatInsert_inv {S : Schema} {ins : List Node} {parent : Option TypeId} {level : List Node}
+    {d idx : Nat} {c : List Node} (h : flatInsert S ins parent level d idx = .ok (some c)) :
+    ∃ l r, fcut level 0 d = .ok l ∧ fcut level d (fsize level) = .ok r ∧
+      c = fappend (fappend l ins) r := by
+  have go : (match fcut level 0 d, fcut level d (fsize level) with
+      | .ok l, .ok r => (.ok (some (fappend (fappend l ins) r)) : Res (Option (List Node)))
+      | .error e, _ => .error e
+      | _, .error e => .error e) = .ok (some c) →
+      ∃ l r, fcut level 0 d = .ok l ∧ fcut level d (fsize level) = .ok r ∧
+        c = fappend (fappend l ins) r := by
+    intro hc
+    split at hc
+    · rename_i l r hl hr
+      simp at hc
+      exact ⟨l, r, hl, hr, hc.symm⟩
+    · simp at hc
+    · simp at hc
+  unfold flatInsert at h
+  simp only at h
+  split at h
+  · exact go h
+  · split at h
+    · simp at h
+    · exact go h
+    · simp at h
+
+/-- inserting at a flat position to the right of the first `k` spine tokens keeps the left spine -/
+theorem flatInsert_spineL {S : Schema} {ins : List Node} {parent : Option TypeId} {level : List Node}
+    {d idx : Nat} {c : List Node} (h0 : depthAt level d = 0)
+    (h : flatInsert S ins parent level d idx = .ok (some c)) (k : Nat)
+    (hk : k ≤ spineL level) (hkd : k ≤ d) : k ≤ spineL c := by
+  by_cases hk0 : k = 0
+  · omega
+  obtain ⟨l, r, hl, _, rfl⟩ := flatInsert_inv h
+  cases level with
+  | nil => simp [spineL] at hk; omega
+  | cons n ns =>
+    cases n with
+    | text s m => simp [spineL] at hk; omega
+    | leaf ty a m => simp [spineL] at hk; omega
+    | elem ty a m kids =>
+      have hsz : 2 + fsize kids ≤ d := by
+        by_cases hlt : d < 2 + fsize kids
+        · rw [depthAt_elem_cons _ _ _ _ _ _ (by omega) hlt] at h0; omega
+        · omega
+      obtain ⟨l', rfl⟩ := fcut_keeps_head _ ns d l (by simp; omega) (by simpa using hsz) hl
+      obtain ⟨x1, h1⟩ := fappend_cons_elem ty a m kids l' ins
+      obtain ⟨x2, h2⟩ := fappend_cons_elem ty a m kids x1 r
+      rw [h1, h2]
+      simpa using hk
+
+theorem depthAt_last_elem (init : List Node) (ty : TypeId) (a : Attrs) (m : Marks) (k : List Node) (d : Nat)
+    (h1 : fsize init < d) (h2 : d < fsize init + (2 + fsize k)) :
+    depthAt (init ++ [.elem ty a m k]) d ≠ 0 := by
+  obtain ⟨j, rfl⟩ : ∃ j, d = fsize init + j := ⟨d - fsize init, by omega⟩
+  rw [depthAt_append_pre, depthAt_elem_cons _ _ _ _ _ _ (by omega) (by omega)]
+  omega
+
+/-- inserting at a flat position to the left of the last `k` spine tokens keeps the right spine -/
+theorem flatInsert_spineR {S : Schema} {ins : List Node} {parent : Option TypeId} {level : List Node}
+    {d idx : Nat} {c : List Node} (h0 : depthAt level d = 0)
+    (h : flatInsert S ins parent level d idx = .ok (some c)) (k : Nat)
+    (hk : k ≤ spineR level) (hkd : d + k ≤ fsize level) : k ≤ spineR c := by
+  by_cases hk0 : k = 0
+  · omega
+  obtain ⟨l, r, _, hr, rfl⟩ := flatInsert_inv h
+  obtain ⟨ty, a, m, kE, hl, _⟩ := spineR_pos_last hk hk0
+  have hM := getLast?_decomp hl
+  generalize level.dropLast = init at hM
+  subst hM
+  have hsz : fsize (init ++ [Node.elem ty a m kE]) = fsize init + (2 + fsize kE) := by
+    rw [fsize_append]; simp
+  have hd : d ≤ fsize init := by
+    by_cases hlt : fsize init < d
+    · exact absurd h0 (depthAt_last_elem init ty a m kE d hlt (by omega))
+    · omega
+  obtain ⟨r', rfl⟩ := fcut_keeps_last _ (by simp; omega) init d r hd hr
+  obtain ⟨x, hx⟩ := fappend_snoc_elem ty a m kE (fappend l ins) r'
+  rw [hx, spineR_concat]
+  rw [spineR_concat] at hk
+  exact hk
+
+theorem insertInto_spine (S : Schema) (ins : List Node) :
+    ∀ (rest : List Node) (parent : Option TypeId) (level : List Node) (d0 idx d oa ob : Nat)
+      (pre c : List Node), level = pre ++ rest → idx = pre.length → d0 = fsize pre + d →
+      insertInto S ins parent level d0 idx rest d oa ob = .ok (some c) →
+      (∀ k, k ≤ spineL level → k ≤ d0 → k ≤ spineL c) ∧
+      (∀ k, k ≤ spineR level → d0 + k ≤ fsize level → k ≤ spineR c)
+  | [], parent, level, d0, idx, d, oa, ob, pre, c, hl, hi, hd0, h => by
+    unfold insertInto at h
+    split at h
+    · rename_i hd; subst hd
+      have h0 : depthAt level d0 = 0 := by rw [hl, hd0, depthAt_append_pre]; simp
+      exact ⟨flatInsert_spineL h0 h, flatInsert_spineR h0 h⟩
+    · simp at h
+  | n :: ns, parent, level, d0, idx, d, oa, ob, pre, c, hl, hi, hd0, h => by
+    have hlsz : fsize level = fsize pre + (n.size + fsize ns) := by rw [hl, fsize_append]; simp
+    unfold insertInto at h
+    split at h
+    · rename_i hd; subst hd
+      have h0 : depthAt level d0 = 0 := by rw [hl, hd0, depthAt_append_pre]; simp
+      exact ⟨flatInsert_spineL h0 h, flatInsert_spineR h0 h⟩
+    · rename_i hd
+      split at h
+      · rename_i hle
+        refine insertInto_spine S ins ns parent level d0 (idx + 1) (d - n.size) oa ob (pre ++ [n]) c
+          ?_ ?_ ?_ h
+        · simp [hl]
+        · simp [hi]
+        · rw [fsize_append]; simp; omega
+      · rename_i hlt
+        have hflat : (∀ ty a m k, n ≠ .elem ty a m k) →
+            flatInsert S ins parent level d0 idx = .ok (some c) →
+            (∀ k, k ≤ spineL level → k ≤ d0 → k ≤ spineL c) ∧
+            (∀ k, k ≤ spineR level → d0 + k ≤ fsize level → k ≤ spineR c) := by
+          intro hne hf
+          have h0 : depthAt level d0 = 0 := by
+            rw [hl, hd0, depthAt_append_pre]
+            exact depthAt_nonelem_cons n ns d (by omega) hne
+          exact ⟨flatInsert_spineL h0 hf, flatInsert_spineR h0 hf⟩
+        split at h
+        · rename_i ty a m kids
+          simp only [Node.size_elem, Nat.not_le] at hlt
+          simp only [Node.size_elem] at hlsz
+          simp only at h
+          split at h
+          · rename_i inner hin
+            simp at h; subst h
+            have ih := insertInto_spine S ins kids _ kids (d - 1) 0 (d - 1) _ _ [] inner rfl rfl
+              (by simp) hin
+            subst hl; subst hi; subst hd0
+            rw [set_mid]
+            refine ⟨?_, ?_⟩
+            · intro k hk hkd
+              cases pre with
+              | nil =>
+                simp only [List.nil_append, spineL_elem_cons] at hk ⊢
+                simp only [fsize_nil, Nat.zero_add] at hkd
+                have := ih.1 (k - 1) (by omega) (by omega)
+                omega
+              | cons p ps =>
+                rw [List.cons_append, spineL_cons_congr p _ (ps ++ Node.elem ty a m kids :: ns)]
+                exact hk
+            · intro k hk hkd
+              cases ns with
+              | nil =>
+                rw [spineR_concat, spineR_elem_single] at hk ⊢
+                simp only [fsize_append, fsize_cons, fsize_nil, Node.size_elem] at hkd
+                by_cases hk0 : k = 0
+                · omega
+                · have := ih.2 (k - 1) (by omega) (by omega)
+                  omega
+              | cons q qs =>
+                have e1 : ∀ x : Node, pre ++ x :: q :: qs = (pre ++ [x]) ++ (q :: qs) := by simp
+                rw [e1, spineR_append_ne_nil _ _ (by simp)] at hk ⊢
+                exact hk
+          · simp at h
+          · simp at h
+        · rename_i hne
+          exact hflat (by intro ty a m k he; exact hne ty a m k he) h
+
+theorem insertAt_no_internal (S : Schema) (sl : Slice) (pos : Nat) (frag : List Node) :
+    sl.insertAt S pos frag ≠ .error .internal := by
+  intro h
+  unfold Slice.insertAt at h
+  split at h
+  · simp at h
+  · simp at h
+  · rename_i e he
+    simp at h; subst h
+    exact insertInto_no_internal S frag sl.content none sl.content _ 0 _ _ _ (by omega) he
+
+/-- **insert_at keeps well-formedness**: the insertion point lies between the two spines -/
+theorem insertAt_wf (S : Schema) (sl ins : Slice) (pos : Nat) (frag : List Node)
+    (hwf : sl.wf = true) (hp : (pos : Int) ≤ sl.size)
+    (h : sl.insertAt S pos frag = .ok (some ins)) : ins.wf = true := by
+  unfold Slice.insertAt at h
+  split at h
+  · rename_i c hc
+    simp at h; subst h
+    have hs := insertInto_spine S frag sl.content none sl.content _ 0 _ _ _ [] c rfl rfl (by simp) hc
+    simp only [Slice.wf, Bool.and_eq_true, decide_eq_true_eq] at hwf ⊢
+    simp only [Slice.size] at hp
+    exact ⟨hs.1 _ hwf.1 (by omega), hs.2 _ hwf.2 (by omega)⟩
+  · simp at h
+  · simp at h
+
 end PM
